@@ -51,6 +51,7 @@ type Exec struct {
 	boxed         map[*types.Var]bool
 	globalsSeen   map[string]bool
 	aliasDepth    int
+	handedMemo    []handedRef
 	quickTimeout  int
 	globalFacts   []*Term
 	notes         map[string]bool
@@ -1156,6 +1157,35 @@ func (ex *Exec) houdiniFrames(st *State, entry map[string]*Term, entryCtr *Term,
 			}})
 		}
 	}
+	// parameter-relative frames: locations that existed at function entry and are not among the
+	// objects handed to this function keep their loop-entry value
+	if paramRelativeLoopFrames && ex.pre != nil && ex.curFn != nil && len(ex.inlineStack) == 0 {
+		handed := ex.fnHanded()
+		if len(handed) > 0 {
+			c0 := ex.pre.ctr
+			for _, h := range names {
+				h := h
+				e := entry[h]
+				cur := st.heap[h]
+				if cur == nil || cur == e || ls.mod.noFrame[h] || strings.HasPrefix(h, "G$") {
+					continue
+				}
+				excl := exclusionsFor(h, handed)
+				if len(excl) == 0 {
+					continue
+				}
+				cands = append(cands, autoCand{name: "frameP:" + describeHeapName(h), at: func(s *State) *Term {
+					r := BVar("r", SInt)
+					c := s.heapGet(h, heapSorts[h])
+					cond := []*Term{Lt(r, c0)}
+					for _, p := range excl {
+						cond = append(cond, Neq(r, p))
+					}
+					return Forall([]*Term{r}, Implies(And(cond...), Eq(Select(c, r), Select(e, r))), []*Term{Select(c, r)})
+				}})
+			}
+		}
+	}
 	cands = append(cands, ex.varCandidates(st, entrySt, ls)...)
 	if len(cands) == 0 {
 		return
@@ -1198,7 +1228,7 @@ func (ex *Exec) houdiniFrames(st *State, entry map[string]*Term, entryCtr *Term,
 		// frame candidates of the fields of one struct type usually share their fate: they are
 		// tried together first (one query per back edge) and one by one only when that fails
 		groupOf := func(name string) string {
-			if !strings.HasPrefix(name, "frame:") && !strings.HasPrefix(name, "frame0:") {
+			if !strings.HasPrefix(name, "frame:") && !strings.HasPrefix(name, "frame0:") && !strings.HasPrefix(name, "frameP:") {
 				return ""
 			}
 			if i := strings.LastIndex(name, "."); i > 0 {
@@ -2058,6 +2088,44 @@ func (ex *Exec) varCandidates(st, entrySt *State, ls loopShape) []autoCand {
 			return Forall([]*Term{k}, Implies(And(Neq(x.C[0], IntLit(0)), has), Neq(val.C[0], IntLit(0))), []*Term{has})
 		}})
 	}
+	// reference fields of the structs pointer parameters point to: still the value they had at
+	// function entry, nil, or allocated during this call
+	if paramRelativeLoopFrames && ex.pre != nil && ex.curFn != nil && len(ex.inlineStack) == 0 {
+		c0 := ex.pre.ctr
+		for _, p := range ex.paramList(ex.curFn) {
+			pv, ok := ex.pre.vars[p]
+			if !ok || ex.boxed[p] || len(pv.C) != 1 {
+				continue
+			}
+			pt, ok := p.Type().Underlying().(*types.Pointer)
+			if !ok {
+				continue
+			}
+			stT, ok := pt.Elem().Underlying().(*types.Struct)
+			if !ok || isOpaqueStruct(pt.Elem()) {
+				continue
+			}
+			pref := pv.C[0]
+			for i := 0; i < stT.NumFields(); i++ {
+				fld := stT.Field(i)
+				for _, c := range flatten(fld.Type()) {
+					if c.Kind != CRef && c.Kind != CArrID && c.Kind != CMap {
+						continue
+					}
+					h := fieldHeapName(pt.Elem(), fld.Name(), c)
+					if _, mod := ls.mod.heaps[h]; !mod {
+						continue
+					}
+					srt := SArr(SInt, c.Sort)
+					pre0 := Select(ex.pre.heapGet(h, srt), pref)
+					needEntry = append(needEntry, autoCand{name: "fieldfresh:" + p.Name() + "." + describeHeapName(h), at: func(s *State) *Term {
+						cur := Select(s.heapGet(h, srt), pref)
+						return Or(Eq(cur, pre0), Eq(cur, IntLit(0)), Ge(cur, c0))
+					}})
+				}
+			}
+		}
+	}
 	// index variables: X[v] in the loop with v an integer variable modified by the loop
 	seen := map[string]bool{}
 	var scan func(n ast.Node)
@@ -2405,3 +2473,29 @@ func (ex *Exec) sharedObjectStore(st *State, lhs ast.Expr) {
 	}
 	ex.obligNoAssume(st, "global-write", lhs, fmt.Sprintf("store through %s must not hit a shared package-level object of type %s", ex.exprStr(base), types.TypeString(bt, func(*types.Package) string { return "" })), And(all...))
 }
+
+// fnHanded: the objects handed to the current function (deep, read in its entry state).
+func (ex *Exec) fnHanded() []handedRef {
+	if ex.handedMemo != nil {
+		return ex.handedMemo
+	}
+	var params []Val
+	for _, p := range ex.paramList(ex.curFn) {
+		if v, ok := ex.pre.vars[p]; ok {
+			if ex.boxed[p] {
+				v = ex.pre.loadStruct(v.C[0], p.Type())
+			}
+			params = append(params, v)
+		}
+	}
+	ex.handedMemo = handedRefsDeep(ex.pre, params)
+	if ex.handedMemo == nil {
+		ex.handedMemo = []handedRef{}
+	}
+	return ex.handedMemo
+}
+
+// paramRelativeLoopFrames: experimental Houdini candidates (frames relative to the objects handed
+// to the function, fields of pointer parameters that are old-or-fresh). They did not discharge
+// anything the other candidates do not on this code base and are switched off.
+var paramRelativeLoopFrames = os.Getenv("GOVC_FRAMEP") != ""
